@@ -50,7 +50,9 @@ func main() {
 				R.Unknown("framework", "panic", "checker panic", "", fmt.Sprint(e))
 			}
 		}()
-		p.Run(&rules.Ctx{P: P, R: R, Tier: *tier, VerifDir: *verif})
+		ctx := &rules.Ctx{P: P, R: R, Tier: *tier, VerifDir: *verif}
+		p.Run(ctx)
+		rules.FinishFields(ctx)
 	}()
 	os.Exit(R.Finish(*verif, seed))
 }
